@@ -23,6 +23,10 @@ ASSUMPTIONS = ["TrafficLight.shape is not in the statement's list and is not com
 PI = math.pi
 ANGLES_F = [0.0, 1e-9, -1e-9, 1e-6, -1e-6, 1e-3, -1e-3, 0.01, -0.01, 0.049, -0.049, 0.05, -0.05, 0.051, -0.051, 0.1, -0.1, 0.5, -0.5, 1.0, -1.0,
             2.5, -2.5, 4.0, -4.0, 6.0, -6.0, PI / 2, -PI / 2, PI, -PI, 3 * PI / 2, -3 * PI / 2, 2 * PI, -2 * PI]
+# both sides of every distinguished angle: the floats next to each quarter turn (towards 0) and 1e-10 short of it -- a shortcut that recognises
+# "a quarter turn" by closeness must still rotate by the angle it was given
+ANGLES_F += [f(q) for q in (PI / 2, -PI / 2, PI, -PI, 3 * PI / 2, -3 * PI / 2, 2 * PI, -2 * PI) for f in (lambda q: math.nextafter(q, 0.0), lambda q: q * (1 - 1e-10))]
+ANGLES_F += [math.nextafter(PI / 2, 4.0), math.nextafter(-PI, -4.0)]
 ANGLES_I = [0, 1, -1, 4, -4, 6, -6]
 PAIR_ANGLES = [0.0, 0.05, -0.03, 0.3, PI / 2, -2.5, 2 * PI, 1]
 TRANS = [(0.0, 0.0), (3.5, -2.0), (1000.0, 7.0)]
@@ -37,6 +41,8 @@ def angle_class(a):
         return "full"
     if min(abs(abs(a) - k * PI / 2) for k in (1, 2, 3)) < 1e-12:
         return "quarter"
+    if min(abs(abs(a) - k * PI / 2) for k in (1, 2, 3, 4)) < 1e-8:
+        return "near-quarter"
     return "generic"
 
 
